@@ -445,6 +445,25 @@ func (v *Verifier) intrinsic(fr *Frame, st *State, full string, fn *types.Func, 
 		rows := v.eng.heapRows(st, byteSh, iv.Ref)
 		id := c.App("ufCTR", IntSort, blk.ID, rows[0], iv.Off, iv.Len)
 		return OpaqueVal{Sh: v.eng.shapeOf(fn.Type().(*types.Signature).Results().At(0).Type()), ID: id, Nil: c.False()}, true
+	case "bufio.NewReader":
+		use()
+		in := args[0].(OpaqueVal)
+		sh := v.eng.shapeOf(fn.Type().(*types.Signature).Results().At(0).Type())
+		return PtrVal{Sh: sh, Ref: c.App("bufio$reader", IntSort, in.ID), Nil: c.False()}, true
+	case "(*bufio.Reader).ReadByte":
+		use()
+		res := fn.Type().(*types.Signature).Results()
+		return TupleVal{[]Val{Scalar{c.Fresh("readbyte", BVSort(8)), types.Typ[types.Uint8]},
+			OpaqueVal{Sh: v.eng.shapeOf(res.At(1).Type()), ID: c.Fresh("err", IntSort), Nil: c.Fresh("readbyte$ok", BoolSort)}}}, true
+	case "(*bufio.Reader).Read":
+		use()
+		p := args[0].(SliceVal)
+		v.havocRange(st, p, p.Off, v.iAdd(p.Off, p.Len))
+		n := c.Fresh("read$n", v.eng.IdxSort())
+		st.assume(v.iLe(v.idxConst(0), n))
+		st.assume(v.iLe(n, p.Len))
+		res := fn.Type().(*types.Signature).Results()
+		return TupleVal{[]Val{v.intVal(n), OpaqueVal{Sh: v.eng.shapeOf(res.At(1).Type()), ID: c.Fresh("err", IntSort), Nil: c.Fresh("read$ok", BoolSort)}}}, true
 	case "(io.Closer).Close":
 		use()
 		res := fn.Type().(*types.Signature).Results()
